@@ -555,6 +555,12 @@ def nd_ops(kind, cplx, sysd):
         return pylops.MatrixMult(dec(sysd["A"], cplx), otherdims=(4,), dtype=dt)
     if kind == "deriv":
         return pylops.FirstDerivative((3, 4), axis=sysd["axis"], dtype=dt)
+    if kind in ("ff_none", "ff_false", "ff_true"):
+        Op = pylops.MatrixMult(dec(sysd["A12"], cplx), dtype=dt, forceflat={"ff_none": None, "ff_false": False, "ff_true": True}[kind])
+        Op.dims = Op.dimsd = (3, 4)
+        return Op
+    if kind == "ff_chain":     # forceflat=False inherited through a product
+        return pylops.MatrixMult(dec(sysd["A12"], cplx), dtype=dt) @ pylops.Identity((3, 4), dtype=dt, forceflat=False)
     raise ValueError(kind)
 
 
@@ -597,7 +603,8 @@ def check_nd(case):
         return probs, {"refused": True, "nontrivial": False}
     if solver in ("cg", "cgls", "lsqr"):
         # the model's shape (Drivers.wrap_shape): dims unless x0 was given flat
-        want = (12,) if (x0_nd is not None and x0_nd.ndim == 1) else tuple(Op.dims)
+        # (forceflat=True: flat by contract; None / False: reshaped)
+        want = (12,) if ((x0_nd is not None and x0_nd.ndim == 1) or getattr(Op, "forceflat", None) is True) else tuple(Op.dims)
         if tuple(out_nd[0].shape) != want:
             probs.append(problem("nd-shape", "%s: result shape %s, model's shape %s (mode %s)" % (solver, out_nd[0].shape, want, mode), case))
     if not close(np.ravel(out_nd[0]), np.ravel(out_fl[0])) or first_diff(out_nd[1:], out_fl[1:]) != -1:
@@ -638,7 +645,7 @@ def check_exc(case):
     sysd = case["sys"]
     solver, cplx, m, style, flag0 = sysd["solver"], sysd["cplx"], case["m"], case["style"], case["flag0"]
     dt = np.complex128 if cplx else np.float64
-    nd = sysd["op"] in ("diag", "matother", "deriv")
+    nd = sysd["op"] in ("diag", "matother", "deriv", "ff_none", "ff_false", "ff_true", "ff_chain")
     base = nd_ops(sysd["op"], cplx, sysd) if nd else make_op(sysd)
     Op = raising_op(base, m)
     y = dec(sysd["y"], cplx)
@@ -690,6 +697,303 @@ def check_exc(case):
 
 
 CHECKS = {"drive": check_drive, "rest": check_rest, "nd": check_nd, "exc": check_exc}
+
+
+# ------------------------------------------------------------------ every keyword, three styles
+def kobj(v, n, dt):
+    """JSON-able keyword value -> object ('@name' = an operator, {'v': ...} = an array)."""
+    import pylops
+    if isinstance(v, str) and v.startswith("@"):
+        if v == "@D":
+            return pylops.FirstDerivative(n, dtype=dt)
+        if v == "@D2":
+            return pylops.SecondDerivative(n, dtype=dt)
+        if v == "@W":
+            return pylops.Diagonal((1 + np.arange(n) % 3).astype(dt), dtype=dt)
+        if v == "@Wd":     # weight on the data space: built by the caller with the right size
+            raise KeyError(v)
+        if v == "@signs":
+            return pylops.Diagonal(np.where(np.arange(n) % 2 == 0, 1.0, -1.0).astype(dt), dtype=dt)
+        if v == "@P":
+            return pylops.Diagonal(((1 + np.arange(n)) / 2).astype(dt), dtype=dt)
+        raise ValueError(v)
+    if isinstance(v, dict) and ("v" in v or "m" in v):
+        return dec(v, np.dtype(dt).kind == "c")
+    if isinstance(v, list):
+        return [kobj(t, n, dt) for t in v]
+    return v
+
+
+def kw_build(kw, n, m, dt):
+    import pylops
+    out = {}
+    for k, v in kw.items():
+        if v == "@Wd":
+            out[k] = pylops.Diagonal((1 + np.arange(m) % 2).astype(dt), dtype=dt)
+        else:
+            out[k] = kobj(v, n, dt)
+    return out
+
+
+def collect(solver, s, x):
+    if solver == "cg":
+        return (x, s.iiter, s.cost)
+    if solver == "cgls":
+        return (x, s.istop, s.iiter, s.r1norm, s.r2norm, s.cost)
+    if solver == "lsqr":
+        return (x, s.istop, s.iiter, s.r1norm, s.r2norm, s.anorm, s.acond, s.arnorm, s.xnorm, s.var, s.cost)
+    return (x, s.iiter, s.cost)
+
+
+def style_call(style, solver, Op, y, kw):
+    """One driving style with a full keyword dictionary.  Positional extras
+    are carried under '_Regs' / '_P'; 'kwargs' are the **kwargs_solver."""
+    from pylops.optimization import leastsquares as LS, sparsity as SP
+    from pylops.optimization.cls_leastsquares import NormalEquationsInversion, PreconditionedInversion, RegularizedInversion
+    from pylops.optimization.cls_sparsity import IRLS, SplitBregman
+    kw = dict(kw)
+    extra = kw.pop("kwargs", {}) or {}
+    pos = [kw.pop(k) for k in ("_Regs", "_P") if k in kw]
+    np.random.seed(0)
+    if solver in ITER:
+        if style == "function":
+            return tuple(functions()[solver](Op, y, **kw))
+        s = classes()[solver](Op)
+        if style == "solve":
+            return tuple(s.solve(y, **kw))
+        if solver == "omp":
+            s.setup(y, **kw)
+            x, cols = s.run([], [])
+            xf = s.finalize(x, cols)
+            return (xf, s.nouter, s.cost)
+        x = s.setup(y, **kw)
+        x = s.run(x, kw.get("niter"))
+        s.finalize()
+        return collect(solver, s, x)
+    F = {"irls": SP.irls, "splitbregman": SP.splitbregman, "nei": LS.normal_equations_inversion,
+         "ri": LS.regularized_inversion, "pi": LS.preconditioned_inversion}[solver]
+    C = {"irls": IRLS, "splitbregman": SplitBregman, "nei": NormalEquationsInversion, "ri": RegularizedInversion,
+         "pi": PreconditionedInversion}[solver]
+    if style == "function":
+        return tuple(F(Op, y, *pos, **kw, **extra))
+    s = C(Op)
+    if style == "solve":
+        return tuple(s.solve(y, *pos, **kw, **extra))
+    if solver == "irls":
+        k2 = dict(kw)
+        x0, nouter = k2.pop("x0", None), k2.pop("nouter", 10)
+        s.setup(y, **k2)
+        if x0 is None:
+            x0 = np.zeros(int(Op.shape[1]), dtype=y.dtype)
+        x = s.run(x0, nouter=nouter, **extra)
+        s.finalize()
+        return (x, s.nouter)
+    if solver == "splitbregman":
+        x = s.setup(y, *pos, **kw)
+        x = s.run(x, **extra)
+        s.finalize()
+        return (x, s.iiter, s.cost)
+    k2 = dict(kw)
+    x0, engine = k2.pop("x0", None), k2.pop("engine", "scipy")
+    s.setup(y, *pos, **k2)
+    out = s.run(x0, engine=engine, **extra)
+    s.finalize()
+    return tuple(out)
+
+
+def is_exc(o):
+    return len(o) > 0 and isinstance(o[0], str) and o[0] == "EXC"
+
+
+def outcome(style, solver, Op, y, kw):
+    try:
+        with np.errstate(all="ignore"):
+            return style_call(style, solver, Op, y, kw)
+    except Exception as e:
+        import pylops
+        pylops.set_ndarray_multiplication(True)
+        return ("EXC", type(e).__name__)
+
+
+def kw_options(solver, par):
+    """(base keywords, {option: [candidate non-default settings]}); a setting
+    is a dict of keyword overrides."""
+    a = par.get("alpha", 1.0 / 64)
+    if solver == "cg":
+        return {"niter": 6, "tol": 0.0}, {"tol": [{"tol": t} for t in (1e-2, 1.0, 1e2, 1e4)], "x0": [{"x0": "@x0"}]}
+    if solver == "cgls":
+        return {"niter": 6, "tol": 0.0, "damp": 0.0}, {
+            "tol": [{"tol": t} for t in (1e-2, 1.0, 1e2, 1e4)], "damp": [{"damp": 0.5}, {"damp": 2.0}], "x0": [{"x0": "@x0"}]}
+    if solver == "lsqr":
+        return {"niter": 12}, {
+            "damp": [{"damp": 0.5}], "atol": [{"atol": t, "btol": 0.0} for t in (0.25, 0.5, 0.05)],
+            "btol": [{"btol": t, "atol": 0.0} for t in (0.25, 0.5, 0.05)],
+            "conlim": [{"conlim": c, "atol": 0.0, "btol": 0.0} for c in (2.0, 8.0, 50.0, 500.0)],
+            "calc_var": [{"calc_var": False}], "x0": [{"x0": "@x0"}]}
+    if solver in ("ista", "fista"):
+        return {"niter": 6, "alpha": a, "eps": 0.5, "tol": 0.0}, {
+            "eps": [{"eps": 2.0}], "alpha": [{"alpha": a / 2}], "tol": [{"tol": t} for t in (1e-3, 1e-2, 0.1, 1.0)],
+            "threshkind": [{"threshkind": "hard"}, {"threshkind": "half"}],
+            "perc": [{"threshkind": "soft-percentile", "perc": 40.0}, {"threshkind": "hard-percentile", "perc": 60.0}],
+            "decay": [{"decay": {"v": [1.0, 0.5, 0.25, 0.125, 0.0625, 0.03125]}}],
+            "monitorres": [{"monitorres": True, "alpha": 64 * a}, {"monitorres": True, "alpha": 1024 * a}, {"monitorres": True}],
+            "SOp": [{"SOp": "@signs"}, {"SOp": "@D2"}], "x0": [{"x0": "@x0"}]}
+    if solver == "omp":
+        return {"niter_outer": 4, "niter_inner": 40, "sigma": 0.0}, {
+            "niter_inner": [{"niter_inner": 0}, {"niter_inner": 1}], "sigma": [{"sigma": t} for t in (0.5, 2.0, 8.0, 32.0)],
+            "normalizecols": [{"normalizecols": True, "niter_inner": 0}, {"normalizecols": True},
+                              {"normalizecols": True, "niter_outer": 1}, {"normalizecols": True, "niter_outer": 2, "niter_inner": 0}]}
+    if solver == "irls":
+        return {"nouter": 3, "kind": "data"}, {
+            "threshR": [{"threshR": True, "epsR": 0.5}], "epsR": [{"epsR": 0.5}], "epsI": [{"epsI": 0.5}],
+            "tolIRLS": [{"tolIRLS": t} for t in (1e-2, 1.0, 10.0, 100.0)],
+            "kind": [{"kind": "model"}, {"kind": "datamodel"}], "warm": [{"warm": True, "kwargs": {"iter_lim": 1}}, {"warm": True}],
+            "kwargs_solver": [{"kwargs": {"iter_lim": 1}}], "x0": [{"x0": "@x0"}, {"x0": "@x0", "nouter": 1, "kwargs": {"iter_lim": 1}}],
+            "nouter": [{"nouter": 1}]}
+    if solver == "splitbregman":
+        return {"_Regs": ["@D"], "niter_outer": 3, "niter_inner": 3, "mu": 1.0, "epsRL1s": [0.5]}, {
+            "mu": [{"mu": 0.25}], "epsRL1s": [{"epsRL1s": [2.0]}], "tol": [{"tol": t} for t in (0.05, 0.5, 5.0)],
+            "tau": [{"tau": 0.5}], "restart": [{"restart": True}], "niter_inner": [{"niter_inner": 1}],
+            "niter_outer": [{"niter_outer": 1}],
+            "RegsL2": [{"RegsL2": ["@D2"], "dataregsL2": ["@dreg"], "epsRL2s": [0.5]}],
+            "epsRL2s": [{"RegsL2": ["@D2"], "epsRL2s": [4.0]}],
+            "kwargs_lsqr": [{"kwargs": {"iter_lim": 1}}], "x0": [{"x0": "@x0"}, {"x0": "@x0", "niter_outer": 1, "niter_inner": 1, "kwargs": {"iter_lim": 1}}]}
+    if solver == "nei":
+        return {"_Regs": ["@D"], "epsRs": [0.5]}, {
+            "x0": [{"x0": "@x0"}, {"x0": "@x0", "kwargs": {"maxiter": 1}}], "Weight": [{"Weight": "@Wd"}], "dataregs": [{"dataregs": ["@dreg"]}], "epsI": [{"epsI": 0.5}],
+            "epsRs": [{"epsRs": [2.0]}], "NRegs": [{"NRegs": ["@W"], "epsNRs": [0.5]}], "epsNRs": [{"NRegs": ["@W"], "epsNRs": [2.0]}],
+            "engine": [{"engine": "pylops", "kwargs": {"niter": 1}}], "kwargs_solver": [{"kwargs": {"maxiter": 1}}]}
+    if solver == "ri":
+        return {"_Regs": ["@D"], "epsRs": [0.5]}, {
+            "x0": [{"x0": "@x0"}, {"x0": "@x0", "kwargs": {"iter_lim": 1}}], "Weight": [{"Weight": "@Wd"}], "dataregs": [{"dataregs": ["@dreg"]}], "epsRs": [{"epsRs": [2.0]}],
+            "engine": [{"engine": "pylops", "kwargs": {"niter": 1}}], "kwargs_solver": [{"kwargs": {"iter_lim": 1}}, {"kwargs": {"damp": 0.5}}]}
+    return {"_P": "@P"}, {"x0": [{"x0": "@x0"}, {"x0": "@x0", "kwargs": {"iter_lim": 1}}], "engine": [{"engine": "pylops", "kwargs": {"niter": 1}}],
+                          "kwargs_solver": [{"kwargs": {"iter_lim": 1}}]}
+
+
+def kw_materialise(kwspec, sysd, n, m, dt):
+    cplx = sysd["cplx"]
+    k = json.loads(json.dumps(kwspec))
+
+    def sub(v):
+        if v == "@x0":
+            return sysd["x0k"]
+        if v == "@dreg":
+            return sysd["dregk"]
+        if isinstance(v, list):
+            return [sub(t) for t in v]
+        return v
+    k = {a: sub(b) for a, b in k.items()}
+    return kw_build(k, n, m, dt)
+
+
+def check_kw(case):
+    """function vs class.solve() vs manual setup;run;finalize under one
+    non-default keyword setting; inputs / flag intact."""
+    import pylops
+    logging.disable(logging.CRITICAL)
+    sysd = case["sys"]
+    solver, cplx = sysd["solver"], sysd["cplx"]
+    dt = np.complex128 if cplx else np.float64
+    Op = make_op(sysd)
+    m, n = int(Op.shape[0]), int(Op.shape[1])
+    y = dec(sysd["y"], cplx)
+    kw = kw_materialise(case["kw"], sysd, n, m, dt)
+    watch = {"y": y}
+    if isinstance(kw.get("x0"), np.ndarray):
+        watch["x0"] = kw["x0"]
+    for key in ("dataregs", "dataregsL2"):
+        if isinstance(kw.get(key), list):
+            watch["dreg"] = kw[key][0]
+    if isinstance(kw.get("decay"), np.ndarray):
+        watch["decay"] = kw["decay"]
+    g = Guard(**watch)
+    probs, outs = [], {}
+    for style in ("function", "solve", "manual"):
+        outs[style] = outcome(style, solver, Op, y, kw)
+        for kind, name, idx in g.changed():
+            probs.append(problem("input:" + name if kind == "input" else "flag",
+                                 "%s(%s) [%s]: %s %s changed (%s)" % (solver, case["opt"], style, kind, name, idx), case))
+            if kind == "input":
+                g.a[name][...] = np.frombuffer(g.b[name], dtype=g.a[name].dtype).reshape(g.a[name].shape)
+            else:
+                pylops.set_ndarray_multiplication(g.flag)
+    tol = TOL if solver in ITER else 1e-10
+    for a, b, key in (("function", "solve", "func-vs-class"), ("solve", "manual", "class-vs-manual")):
+        if is_exc(outs[a]) or is_exc(outs[b]):
+            i = -1 if (is_exc(outs[a]) and is_exc(outs[b]) and outs[a][1] == outs[b][1]) else 0
+        else:
+            i = first_diff(outs[a], outs[b], tol) if len(outs[a]) == len(outs[b]) else 0
+        if i != -1:
+            probs.append(problem(key, "%s with %s: %s and %s differ in output %d (%s vs %s)" % (
+                solver, {k: v for k, v in case["kw"].items() if k in case["setting"]}, a, b, i,
+                _short(outs[a], i), _short(outs[b], i)), case))
+    return probs, {"outs": outs, "nontrivial": True}
+
+
+def _short(o, i):
+    if is_exc(o):
+        return "raises %s" % o[1]
+    v = o[i] if i < len(o) else None
+    if isinstance(v, np.ndarray):
+        return "array%s %s" % (v.shape, np.array2string(v.ravel()[:3], precision=6))
+    return repr(v)
+
+
+def kw_cases(r, solver, cplx, isys):
+    """One system + for every keyword of the solver the first candidate
+    setting that changes the outcome of MANUAL driving (setup/run honour it
+    directly), so that a wrapper or solve() that drops / reorders it shows."""
+    dt = np.complex128 if cplx else np.float64
+    if solver == "lsqr":
+        # ill-conditioned (dyadic singular values) so that conlim / atol / btol can fire inside the budget
+        n = 6
+        Q = np.eye(n) + np.diag(np.ones(n - 1), 1) * 0.5
+        A = (Q @ np.diag([2.0 ** (-2 * j) for j in range(n)])).astype(dt)
+        sysd = {"solver": solver, "cplx": cplx, "op": "mat", "A": enc(A), "y": enc(A @ np.ones(n) + rint(r, (n,), cplx, -1, 1) / 64),
+                "x0": None, "par": {}}
+    else:
+        sysd = gen_system(r, "cg" if solver == "cg" else solver if solver in ITER else "cgls", cplx)
+        sysd["solver"] = solver
+        n = len(dec(sysd["A"], cplx)[0])
+        if solver in REST:
+            # overdetermined and inconsistent, so that weights / regularisation / thresholds change the answer
+            A = np.vstack([dec(sysd["A"], cplx)[:n], rint(r, (3, n), cplx, -2, 2)])
+            sysd["A"] = enc(A)
+            sysd["y"] = enc(A @ rint(r, (n,), cplx) + rint(r, (n + 3,), cplx, -3, 3))
+    sysd["x0k"] = enc(rint(r, (n,), cplx, -2, 2))
+    sysd["dregk"] = enc(rint(r, (n,), cplx, -2, 2))
+    Op = make_op(sysd)
+    m = int(Op.shape[0])
+    y = dec(sysd["y"], cplx)
+    base, opts = kw_options(solver, sysd["par"])
+    cases, effect = [], {}
+    for opt, cands in opts.items():
+        okey = "kwargs" if opt.startswith("kwargs") else opt
+        chosen, matters, exc_choice = None, False, None
+        for setting in cands:
+            kw = dict(base)
+            kw.update(setting)
+            kref = dict(base)
+            kref.update({k: v for k, v in setting.items() if k != okey})
+            o = outcome("manual", solver, Op, y, kw_materialise(kw, sysd, n, m, dt))
+            ref = outcome("manual", solver, Op, y, kw_materialise(kref, sysd, n, m, dt))
+            if chosen is None:
+                chosen = (kw, setting)
+            differs = is_exc(o) != is_exc(ref) or (len(o) != len(ref)) or (not is_exc(o) and first_diff(o, ref, 1e-9) != -1)
+            if differs and not is_exc(o):
+                chosen, matters = (kw, setting), True
+                break
+            if differs and exc_choice is None:
+                exc_choice = (kw, setting)
+        if not matters and exc_choice is not None:
+            chosen, matters = exc_choice, True     # the setting turns the run into an exception: all styles must raise alike
+        effect[opt] = matters
+        cases.append({"kind": "kw", "sys": sysd, "opt": opt, "kw": chosen[0], "setting": sorted(chosen[1]), "matters": matters})
+    return cases, effect
+
+
+CHECKS["kw"] = check_kw
 
 
 def known_for(p):
@@ -780,7 +1084,7 @@ def main(tier):
     allprobs = []
     hcases, ncases, acases = [], [], []
     hmeta, nmeta = {}, {}
-    counts = {"drive": 0, "rest": 0, "nd": 0, "exc": 0}
+    counts = {"drive": 0, "rest": 0, "nd": 0, "exc": 0, "kw": 0}
     dist = {}
     nontriv = set()
     evals = 0
@@ -907,10 +1211,33 @@ def main(tier):
                         # alias of y_normal vs the heap model (observed through the alias problem key)
                         obs_alias = any(p["key"] == "alias:y_normal" for p in probs)
                         acases.append((len(acases) + 1, "nei", False, sysd["op"] == "ident", 0, [(True, False), (obs_alias, False)], case))
+        # ---------------- every keyword of every solver, three styles
+        kweffect = {}
+        for solver in ITER + REST:
+            for cplx in (False, True):
+                for isys in range(1 if quick else 3):
+                    r = common.rng(PID, "kw", solver, cplx, isys)
+                    cases_, effect = kw_cases(r, solver, cplx, isys)
+                    for c_ in cases_:
+                        probs, rec = check_kw(c_)
+                        counts["kw"] = counts.get("kw", 0) + 1
+                        evals += 3
+                        allprobs += probs
+                        kk = "%s.%s" % (solver, c_["opt"])
+                        kweffect[kk] = kweffect.get(kk, False) or c_["matters"]
+                        if c_["matters"]:
+                            nontriv.add((solver, cplx, isys, "kw", c_["opt"]))
+        dist["keywords swept"] = len(kweffect)
+        dist["keywords whose setting changed the outcome"] = sum(1 for v in kweffect.values() if v)
+        noeff = sorted(k for k, v in kweffect.items() if not v)
+        if noeff:
+            R.notes.append("keyword settings without effect on the outcome (style comparison still run): %s" % noeff)
         # ---------------- N-d
         for solver in ITER + REST:
             for cplx in (False, True):
-                for opk in ("diag", "matother", "deriv"):
+                for opk in ("diag", "matother", "deriv", "ff_none", "ff_false", "ff_true", "ff_chain"):
+                    if opk.startswith("ff_") and solver not in ("cg", "cgls", "lsqr"):
+                        continue
                     if opk == "deriv" and solver in ("cg", "omp", "ista", "fista") + tuple(REST):
                         continue
                     if solver in REST and opk != "diag":
@@ -920,6 +1247,9 @@ def main(tier):
                     sysd["d"] = enc(np.array([r.randint(2, 6) for _ in range(12)], dtype=float) + (0j if cplx else 0))
                     B = rint(r, (3, 3), cplx, -2, 2)
                     sysd["A"] = enc(B.conj().T @ B + 4 * np.eye(3))
+                    if opk.startswith("ff_"):
+                        B12 = rint(r, (12, 12), cplx, -1, 1)
+                        sysd["A12"] = enc(B12.conj().T @ B12 + 12 * np.eye(12))
                     sysd["y"] = enc(rint(r, (12,), cplx))
                     sysd["x0"] = enc(rint(r, (12,), cplx, -2, 2))
                     sysd["par"] = {"tol": 0.0, "damp": 0.0, "alpha": 1.0 / 64, "eps": 0.5, "inner": 40, "sigma": 0.0}
